@@ -7,6 +7,7 @@
 -/
 import NcVerif.Proofs.Framing10
 import NcVerif.Proofs.Framing11
+import NcVerif.Proofs.SessionA
 namespace NcVerif.C14
 open NcVerif NcVerif.Framing NcVerif.FramingSpec
 
@@ -31,9 +32,9 @@ theorem delivered_sound10 (segs : List Bytes) :
         RunShape (obs (feedAll false init segs)) texts := by
   exact Framing10.delivered_sound10 segs
 
-/-- No stall, 1.1: a run that has not raised can always still complete a message — the bytes
-    buffered so far are a proper prefix of well-formed framing.  Contrapositive: a stream that
-    breaks chunk framing (cannot be continued to complete a frame) HAS raised. -/
+/-- No stall, 1.1: a run that has not raised is never wedged — some continuation of the stream makes
+    the parser produce one more output (a delivery, or an error: e.g. after `\n##` with no chunk
+    every continuation raises).  There is no state in which it silently waits for ever. -/
 theorem no_stall11 (segs : List Bytes) (h : hasRaise (obs (feedAll true init segs)) = false) :
     ∃ ext : Bytes, (obs (feedAll true init (segs ++ [ext]))).length >
       (obs (feedAll true init segs)).length := by
@@ -57,5 +58,49 @@ example : obs (feedAll true init [[0x0a, 0x23, 0x23, 0x0a]]) = [.raise .framing]
 -- invalid UTF-8 payload: decode error, nothing delivered
 example : obs (feedAll true init [[0x0a, 0x23, 0x31, 0x0a, 0xff, 0x0a, 0x23, 0x23, 0x0a]]) = [.raise .decode] := by decide +kernel
 example : hasRaise (obs (feedAll true init [[0x0a, 0x23, 0x35, 0x0a, 0x78]])) = false := by decide +kernel
+
+/-! ## Session level (Model/Session): whatever ends the worker, the session is released -/
+
+section SessionLevel
+open NcVerif.Session NcVerif.SessionSpec
+
+/-- A framing or decoding error found by the parser puts the worker on its error path: the message
+    is not dispatched, nothing after it is. -/
+theorem parser_error_fails_session (env : Env) (w : World) (k : ErrKind) (rest : List Out)
+    (h : w.pc = .dispatching (.raise k :: rest)) :
+    ∃ e, (step env w .wDispatch).pc = .failing e ∧ (step env w .wDispatch).received = w.received ∧
+         (step env w .wDispatch).rpcs = w.rpcs ∧ (step env w .wDispatch).notifQ = w.notifQ := by
+  exact SessionA.parser_error_fails_session env w k rest h
+
+/-- A payload the XML library cannot parse (and the device handler does not rescue) is dropped:
+    it reaches no request and no queue, and the session goes on. -/
+theorem bad_payload_not_delivered (env : Env) (w : World) (raw : Str) (h : env.classify raw = .drop) :
+    (dispatchMessage env w raw).1.rpcs = w.rpcs ∧ (dispatchMessage env w raw).1.notifQ = w.notifQ ∧
+    (dispatchMessage env w raw).1.id2rpc = w.id2rpc ∧ (dispatchMessage env w raw).2 = none := by
+  exact SessionA.bad_payload_not_delivered env w raw h
+
+/-- The worker can stop in two ways only: after its error path, or after a local close. -/
+theorem stop_paths (env : Env) (w : World) (op : Op) (h : w.pc ≠ .stopped)
+    (h' : (step env w op).pc = .stopped) :
+    (op = .wCloseSelf ∧ w.pc = .closingSelf) ∨ (op = .wExit ∧ w.pc = .exiting) := by
+  exact SessionA.stop_paths env w op h h'
+
+/-- Whenever the worker has stopped — for ANY reason, in any history — the session is closing, the
+    final error has been delivered, every request that existed then has been failed or answered,
+    and the session is (or, for a close still in progress in a client thread, is about to be)
+    marked disconnected. -/
+theorem worker_stop_invariant (env : Env) (ops : List Op) :
+    (run env init ops).pc = .stopped →
+      (run env init ops).closing = true ∧ (run env init ops).errbackDone = true ∧
+      (∀ r ∈ (run env init ops).rpcs, r.event = true ∨ r.lateBorn = true) ∧
+      (step env (run env init ops) .cCloseEnd).connected = false := by
+  exact SessionA.worker_stop_invariant env ops
+
+/-- …and a stopped worker dispatches nothing any more. -/
+theorem stopped_is_final (env : Env) (w : World) (op : Op) (h : w.pc = .stopped) (hw : isWorkerOp op = true) :
+    step env w op = w := by
+  exact SessionA.stopped_is_final env w op h hw
+
+end SessionLevel
 
 end NcVerif.C14
